@@ -1,13 +1,227 @@
-import HecsModel.Model.Query
+import HecsModel.Lemmas.Query
+import HecsModel.Model.QueryJudge
 /-
-  C08 — Queries yield exactly the matching entities, once, on every access path.
-  (interim: the full development is in Lemmas/Query.lean)
+  C08 — for any query type, iterating yields each live entity whose component set satisfies the
+  query exactly once, with its own values; reported lengths match; every access path gives the
+  same answer.  All statements are for every query shape `Q` (structural induction) and every world.
+  Property theorems only; helper lemmas live in `Lemmas/Query.lean`.
 -/
 namespace Hecs.Props.C08
-open Hecs
+open Hecs Hecs.World
 
-/-- `Option<Q>` matches every archetype, through `access` and through `prepare` alike -/
-theorem opt_always (q : Q) (ts : List Nat) : ((Q.opt q).access ts).isSome = true ∧ (Q.opt q).prepares ts = true := by
-  simp [Q.access, Q.prepares]
+/-! ### 1. `access`, `prepare` and the meaning of the query agree -/
+
+/-- `Fetch::access(..).is_some()` is exactly "the component set satisfies the query" -/
+theorem access_isSome_iff_sat (q : Q) (ts : List Nat) : (q.access ts).isSome = q.sat ts :=
+  Q.access_isSome_eq_sat q ts
+
+/-- `Fetch::prepare(..).is_some()` is exactly "the component set satisfies the query" -/
+theorem prepares_eq_sat (q : Q) (ts : List Nat) : q.prepares ts = q.sat ts :=
+  Q.prepares_eq_sat q ts
+
+theorem access_isSome_eq_prepares (q : Q) (ts : List Nat) : (q.access ts).isSome = q.prepares ts := by
+  rw [access_isSome_iff_sat, prepares_eq_sat]
+
+/-- the spec item used here is the judge's -/
+theorem specItem_eq_judge : specItem = Hecs.QueryJudge.specItem := by
+  funext q vals
+  induction q with
+  | or l r ihl ihr =>
+    simp only [specItem, QueryJudge.specItem, ihl, ihr]
+    cases l.sat (vals.map (·.1)) <;> cases r.sat (vals.map (·.1)) <;> rfl
+  | _ => simp [specItem, QueryJudge.specItem, *]
+
+/-- on a row of an archetype with type list `ts`, the fetched item is determined by the row's own
+values -/
+theorem item_eq_specItem (q : Q) (ts : List Nat) (vals : List Comp) (h : vals.map (·.1) = ts) :
+    q.item ts vals = specItem q vals :=
+  Q.item_eq_specItem q ts vals h
+
+/-! ### 2. reported lengths -/
+
+theorem queryLen_eq_length (w : World) (q : Q) : w.queryLen q = (w.queryIter q).length :=
+  World.queryLen_eq_length w q
+
+theorem preparedLen_eq_length (w : World) (q : Q) : w.preparedLen q = (w.queryIter q).length :=
+  World.preparedLen_eq_length w q
+
+/-! ### 3. iteration = the live rows that satisfy the query, in storage order, with their own values -/
+
+theorem queryIter_spec (w : World) (q : Q)
+    (hT : ∀ (a : Nat) (ar : Arch) (i : Nat) (r : Row), w.archs[a]? = some ar → ar.rows[i]? = some r →
+      r.vals.map (·.1) = ar.types) :
+    w.queryIter q =
+      (w.liveRows.filter (fun p => q.sat (p.2.map (·.1)))).map (fun p => (p.1, specItem q p.2)) :=
+  World.queryIter_spec w q hT
+
+theorem queryIter_spec_core (w : World) (hc : w.Core) (q : Q) :
+    w.queryIter q =
+      (w.liveRows.filter (fun p => q.sat (p.2.map (·.1)))).map (fun p => (p.1, specItem q p.2)) :=
+  World.queryIter_spec w q hc.row_types
+
+/-- membership form: `(e, it)` is yielded iff `e` is a live row whose own component set satisfies
+the query and `it` is computed from that row's values -/
+theorem mem_queryIter_iff (w : World) (hc : w.Core) (q : Q) (e : Entity) (it : Item) :
+    (e, it) ∈ w.queryIter q ↔
+      ∃ vals, (e, vals) ∈ w.liveRows ∧ q.sat (vals.map (·.1)) = true ∧ it = specItem q vals := by
+  rw [queryIter_spec_core w hc q]
+  simp only [List.mem_map, List.mem_filter, Prod.mk.injEq]
+  constructor
+  · rintro ⟨⟨e', vals⟩, ⟨hm, hs⟩, rfl, rfl⟩
+    exact ⟨vals, hm, hs, rfl⟩
+  · rintro ⟨vals, hm, hs, rfl⟩
+    exact ⟨(e, vals), ⟨hm, hs⟩, rfl, rfl⟩
+
+/-! ### 4. batches -/
+
+theorem chunks_flatten {α} (n : Nat) (hn : 1 ≤ n) (l : List α) :
+    (chunks n l l.length).flatten = l :=
+  World.chunks_flatten n hn l.length l (Nat.le_refl _)
+
+theorem chunks_sizes {α} (n : Nat) (hn : 1 ≤ n) (fuel : Nat) (l : List α) :
+    ∀ b ∈ chunks n l fuel, 0 < b.length ∧ b.length ≤ n :=
+  World.chunks_sizes n hn fuel l
+
+/-- the batches concatenate to the plain iteration -/
+theorem batched_concat (w : World) (q : Q) (n : Nat) (hn : 1 ≤ n) :
+    (w.queryBatched q n).flatten = w.queryIter q :=
+  World.batched_concat w q n hn
+
+/-- no batch is empty or longer than `batch_size` -/
+theorem batched_sizes (w : World) (q : Q) (n : Nat) (hn : 1 ≤ n) :
+    ∀ b ∈ w.queryBatched q n, 0 < b.length ∧ b.length ≤ n :=
+  World.batched_sizes w q n hn
+
+/-! ### 5. random access agrees with iteration -/
+
+/-- the view returns an item for `e` iff iteration yields that item for `e` -/
+theorem viewGet_some_iff_mem (w : World) (hc : w.Core) (q : Q) (e : Entity) (it : Item) :
+    w.viewGet q e = some it ↔ (e, it) ∈ w.queryIter q :=
+  World.viewGet_some_iff_mem w hc q e it
+
+/-- … and then `e` is genuinely located with a matching generation -/
+theorem viewGet_some_iff (w : World) (hc : w.Core) (q : Q) (e : Entity) (it : Item) :
+    w.viewGet q e = some it ↔
+      (e, it) ∈ w.queryIter q ∧ ∃ a i, w.locOf e.id = some (a, i) ∧ w.genOf e.id = e.gen := by
+  constructor
+  · intro h
+    refine ⟨(viewGet_some_iff_mem w hc q e it).1 h, ?_⟩
+    obtain ⟨a, i, _, _, hl, hg, _⟩ := (World.viewGet_eq_some w q e it).1 h
+    exact ⟨a, i, hl, hg⟩
+  · intro h
+    exact (viewGet_some_iff_mem w hc q e it).2 h.1
+
+/-- explicit form: a live located entity with matching generation whose archetype satisfies the
+query, and the item is computed from that entity's own row -/
+theorem viewGet_spec (w : World) (hc : w.Core) (q : Q) (e : Entity) (it : Item) :
+    w.viewGet q e = some it ↔
+      ∃ a i ar r, w.locOf e.id = some (a, i) ∧ w.genOf e.id = e.gen ∧ w.archs[a]? = some ar ∧
+        ar.rows[i]? = some r ∧ r.id = e.id ∧ q.sat (r.vals.map (·.1)) = true ∧
+        it = specItem q r.vals := by
+  rw [World.viewGet_eq_some]
+  constructor
+  · rintro ⟨a, i, ar, r, hl, hg, ha, hr, hs, rfl⟩
+    have ht := hc.row_types a ar i r ha hr
+    obtain ⟨r', hr', hid⟩ := hc.loc_row _ _ _ hl
+    rw [World.rowAt_eq ha hr] at hr'
+    cases hr'
+    exact ⟨a, i, ar, r, hl, hg, ha, hr, hid, ht ▸ hs, Q.item_eq_specItem q _ _ ht⟩
+  · rintro ⟨a, i, ar, r, hl, hg, ha, hr, -, hs, rfl⟩
+    have ht := hc.row_types a ar i r ha hr
+    exact ⟨a, i, ar, r, hl, hg, ha, hr, ht ▸ hs, (Q.item_eq_specItem q _ _ ht).symm⟩
+
+/-- the view is a function: iteration never yields two different items for one handle -/
+theorem queryIter_functional (w : World) (hc : w.Core) (q : Q) (e : Entity) (it₁ it₂ : Item)
+    (h₁ : (e, it₁) ∈ w.queryIter q) (h₂ : (e, it₂) ∈ w.queryIter q) : it₁ = it₂ := by
+  have a := (viewGet_some_iff_mem w hc q e it₁).2 h₁
+  have b := (viewGet_some_iff_mem w hc q e it₂).2 h₂
+  rw [a] at b
+  exact Option.some.inj b
+
+/-- `Entities::get` answers "located at `(a, i)`" exactly for located ids of matching generation -/
+theorem get_located_iff (w : World) (e : Entity) (a i : Nat) :
+    w.get e = some (some (a, i)) ↔ w.locOf e.id = some (a, i) ∧ w.genOf e.id = e.gen :=
+  World.get_located_iff w e a i
+
+/-- `query_one` on a located entity is the view's answer (`some none` = unsatisfied) -/
+theorem queryOne_located (w : World) (hc : w.Core) (q : Q) (e : Entity) (a i : Nat)
+    (h : w.get e = some (some (a, i))) : w.queryOne q e = some (w.viewGet q e) :=
+  World.queryOne_located w hc q e a i h
+
+/-- `query_one` on a reserved (not yet flushed) entity sees the empty component set -/
+theorem queryOne_reserved (w : World) (q : Q) (e : Entity) (h : w.get e = some none) :
+    w.queryOne q e = some (if q.sat [] then some (specItem q []) else none) :=
+  World.queryOne_reserved w q e h
+
+theorem queryOne_nosuch (w : World) (q : Q) (e : Entity) (h : w.get e = none) :
+    w.queryOne q e = none :=
+  World.queryOne_nosuch w q e h
+
+/-- `World::satisfies` answers `sat` of the entity's archetype types (`[]` for a reserved entity) -/
+theorem satisfiesQ_eq (w : World) (q : Q) (e : Entity) (b : Bool) (h : w.satisfiesQ q e = some b) :
+    (w.get e = some none ∧ b = q.sat []) ∨
+    (∃ a i ar, w.get e = some (some (a, i)) ∧ w.archs[a]? = some ar ∧ b = q.sat ar.types) :=
+  World.satisfiesQ_eq w q e b h
+
+/-- `satisfies` (built on `access`) is "the single-entity query (built on `prepare`) yields an item" -/
+theorem satisfiesQ_eq_queryOne_isSome (w : World) (hc : w.Core) (q : Q) (e : Entity) :
+    w.satisfiesQ q e = (w.queryOne q e).map Option.isSome :=
+  World.satisfiesQ_eq_queryOne_isSome w hc q e
+
+/-! ### 6. `assert_borrow` -/
+
+/-- if the check passes, a uniquely borrowed type is not borrowed by any other field -/
+theorem assertBorrowOk_sound (q : Q) (h : q.assertBorrowOk = true) (i j : Nat) (hij : i ≠ j)
+    (hi : i < q.borrows.length) (hj : j < q.borrows.length) (hu : (q.borrows[i]!).2 = true) :
+    (q.borrows[i]!).1 ≠ (q.borrows[j]!).1 := by
+  have := Q.assertBorrowOk_sound q h i j hij hi hj
+  simp only [List.getD_eq_getElem?_getD, List.getElem?_eq_getElem hi, List.getElem?_eq_getElem hj,
+    Option.getD_some] at this
+  simp only [getElem!_pos, hi, hj] at hu ⊢
+  exact this hu
+
+/-! ### 7. each entity once -/
+
+/-- the ids of the live rows are pairwise distinct -/
+theorem liveRows_nodup (w : World) (hc : w.Core) : (w.liveRows.map (·.1.id)).Nodup :=
+  World.liveRows_nodup w hc
+
+/-- hence no query yields an entity twice -/
+theorem queryIter_nodup (w : World) (hc : w.Core) (q : Q) : ((w.queryIter q).map (·.1.id)).Nodup :=
+  World.queryIter_nodup w hc q
+
+/-! ### 8. non-vacuity on a concrete world -/
+
+open Hecs.QueryExample (qEx wEx)
+
+/-- `wEx` is the world after two spawns -/
+theorem wEx_eq_run : Hecs.run [.spawn [(0, 1), (1, 2)], .spawn [(0, 3)]] = wEx := by
+  with_unfolding_all rfl
+
+/-- … and it satisfies the representation invariant, so the `Core` hypotheses above are satisfiable
+by a world with matching and non-matching rows -/
+theorem wEx_core : wEx.Core := Hecs.QueryExample.wEx_core
+
+example : ((wEx.queryIter qEx).map (·.1.id)).Nodup := queryIter_nodup wEx wEx_core qEx
+example : (⟨1, 1⟩, .pair (.val 0 3) (.pair .none .unit)) ∈ wEx.queryIter qEx :=
+  (viewGet_some_iff_mem wEx wEx_core qEx _ _).1 (by decide)
+
+example : wEx.queryIter qEx =
+    [(⟨0, 1⟩, .pair (.val 0 1) (.pair (.some (.val 1 2)) .unit)),
+     (⟨1, 1⟩, .pair (.val 0 3) (.pair .none .unit))] := by decide
+example : wEx.liveRows = [(⟨0, 1⟩, [(0, 1), (1, 2)]), (⟨1, 1⟩, [(0, 3)])] := by decide
+example : wEx.queryLen qEx = 2 ∧ wEx.preparedLen qEx = 2 := by decide
+example : wEx.queryIter (.pair (.write 1) .unit) = [(⟨0, 1⟩, .pair (.val 1 2) .unit)] := by decide
+example : wEx.queryIter (.without (.read 0) (.read 1)) = [(⟨1, 1⟩, .val 0 3)] := by decide
+example : wEx.queryBatched qEx 1 =
+    [[(⟨0, 1⟩, .pair (.val 0 1) (.pair (.some (.val 1 2)) .unit))],
+     [(⟨1, 1⟩, .pair (.val 0 3) (.pair .none .unit))]] := by decide
+example : wEx.viewGet qEx ⟨1, 1⟩ = some (.pair (.val 0 3) (.pair .none .unit)) := by decide
+example : wEx.viewGet qEx ⟨1, 2⟩ = none := by decide
+example : wEx.queryOne qEx ⟨1, 1⟩ = some (some (.pair (.val 0 3) (.pair .none .unit))) := by decide
+example : wEx.queryOne (.write 1) ⟨1, 1⟩ = some none := by decide
+example : wEx.satisfiesQ (.write 1) ⟨0, 1⟩ = some true := by decide
+example : (Q.pair (.write 0) (.pair (.read 1) .unit)).assertBorrowOk = true := by decide
+example : (Q.pair (.write 0) (.pair (.read 0) .unit)).assertBorrowOk = false := by decide
 
 end Hecs.Props.C08
